@@ -3,4 +3,5 @@ Require Extraction.
 Require Import ExtrOcamlBasic.
 Require Import Model.Base Model.Ir Model.SignalAssign.
 Separate Extraction Base.base_roots Ir.cfg SignalAssign.find_signal_assignments
-  SignalAssign.keys_distinct_b SignalAssign.constraint_keys_distinct_b.
+  SignalAssign.keys_distinct_b SignalAssign.constraint_keys_distinct_b
+  SignalAssign.subkeys_distinct_b.
